@@ -12,6 +12,10 @@ pub struct Case {
     pub os: OsCase,
     pub k: u32,
     pub errno: i32,
+    /// call k is the LAST unlink attempt on a library temp file in the fault-free trace (the drop
+    /// guard's): only then is a leaked temp file unavoidable
+    #[serde(default)]
+    pub last_temp_unlink: bool,
 }
 
 fn errnos_for(call: &str, arg: i64) -> Vec<i32> {
@@ -155,7 +159,9 @@ pub fn judge(root: &Path, c: &Case) -> Result<bool, (String, String)> {
         // (4) no temporary file created by the library is left behind
         let temps_after = temp_files(root);
         for t in temps_after.iter().filter(|t| !temps_before.contains(t)) {
-            let excused = inj.as_ref().map(|e| e.call == "unlink" && e.path.ends_with(t.rsplit('/').next().unwrap())).unwrap_or(false);
+            // the library removes its temp file in the publication step AND through a drop guard: a single
+            // failing unlink leaks it only if it was the last attempt the fault-free run makes
+            let excused = c.last_temp_unlink && inj.as_ref().map(|e| e.call == "unlink" && e.path.ends_with(t.rsplit('/').next().unwrap())).unwrap_or(false);
             if !excused {
                 return Err(("c18:temp-file-leaked".into(), format!("{} left {} behind", what(), t)));
             }
@@ -202,9 +208,10 @@ pub fn run(ctx: &Ctx) -> Report {
             continue;
         };
         rep.extra_add("operation_state_cases", 1);
+        let last_temp_unlink = calls.iter().enumerate().filter(|(_, (call, _, path))| call == "unlink" && path.contains(".kismet_temp/")).map(|(i, _)| i).last();
         for (k, (call, arg, _path)) in calls.iter().enumerate() {
             for errno in errnos_for(call, *arg) {
-                let c = Case { os: os.clone(), k: k as u32, errno };
+                let c = Case { os: os.clone(), k: k as u32, errno, last_temp_unlink: last_temp_unlink == Some(k) };
                 let r = judge(&root, &c);
                 rep.evaluations += 1;
                 if matches!(r, Ok(true)) {
